@@ -134,7 +134,48 @@ fn aligned_big_reads(rng: &mut Rng, thorough: bool, sink: &mut Sink) {
     }
 }
 
+/// Two responses read one after the other on the same thread; the first is abandoned part-way through its body
+/// (dropped after a few reads) — the payload of the second is exactly what ITS server framed, whatever the reader
+/// of the first left behind (seeds C01-seed9 / C02-seed9: a staging buffer recycled through a thread-local).
+fn abandoned_then_next(rng: &mut Rng, thorough: bool, sink: &mut Sink) {
+    let max_buf = crate::resp::max_buffer_len();
+    let rounds = if thorough { 20 } else { 3 };
+    for _ in 0..rounds {
+        for fa in 0..3u64 {
+            for fb in 0..3u64 {
+                let big = fa == 0 && rng.chance(1, 3);
+                let a = gen_valid(rng, fa, big);
+                let b = gen_valid(rng, fb, false);
+                if a.payload().len() < 2 {
+                    continue;
+                }
+                // the first response: a few reads that stop short of the end of its body, then it is dropped
+                let wa = a.wire();
+                let take = 1 + rng.below(a.payload().len() as u64 - 1) as usize;
+                let ca = RespCase { method: "GET".into(), max_headers: 100, segs: vec![crate::script::Seg::Data(wa)], reads: Reads::Sizes(vec![take.min(7), take]) };
+                let _ = run_resp(&ca);
+                // the second one, read to its end
+                let wb = b.wire();
+                let head_len = b.head_bytes().len();
+                let (segs, segname) = segment(rng, &wb, &interesting_offsets(&wb, head_len));
+                let (ns, _) = read_schedule(rng, b.payload().len(), pieces(&b, segs.len(), max_buf));
+                let drain = rng.chance(1, 3);
+                let cb = RespCase { method: "GET".into(), max_headers: 100, segs, reads: if drain { Reads::Drain(crate::resp::DRAIN_BYTES) } else { Reads::Sizes(ns) } };
+                let out = run_resp(&cb);
+                let o = oracle(&b, &cb, &out);
+                sink.push(Case {
+                    tags: vec![format!("framing={}", b.framing_name()), format!("seg={}", segname), format!("reads=after-abandoned-{}", a.framing_name())],
+                    op: cb.op_line(),
+                    impl_line: out.line(),
+                    oracle: o,
+                });
+            }
+        }
+    }
+}
+
 pub fn generate(seed: u64, tier: &str, sink: &mut Sink) {
+    abandoned_then_next(&mut Rng::new(seed ^ 0xC01A), tier == "thorough", sink);
     let mut rng = Rng::new(seed ^ 0xC01);
     let n = if tier == "thorough" { 60_000 } else { 2500 };
     let max_buf = crate::resp::max_buffer_len();
